@@ -20,12 +20,18 @@ func instantiate(stmts []string, asset string, extra map[string][2]string) (stri
 	n := 0
 	var out []string
 	for _, st := range stmts {
+		pos := 0
 		for {
-			i := strings.Index(st, "%")
-			if i < 0 || i+1 >= len(st) {
+			i := strings.Index(st[pos:], "%")
+			if i < 0 || pos+i+1 >= len(st) {
 				break
 			}
+			i += pos
 			kind := st[i+1]
+			if kind != 'C' && kind != 'K' && kind != 'N' {
+				pos = i + 1
+				continue
+			}
 			n++
 			var name string
 			switch kind {
@@ -33,14 +39,13 @@ func instantiate(stmts []string, asset string, extra map[string][2]string) (stri
 				name = fmt.Sprintf("c%d", n)
 			case 'K':
 				name = fmt.Sprintf("k%d", n)
-			case 'N':
-				name = fmt.Sprintf("n%d", n)
 			default:
-				name = fmt.Sprintf("v%d", n)
+				name = fmt.Sprintf("n%d", n)
 			}
 			decls = append(decls, "monetary $"+name)
 			specs = append(specs, name+"=mon:"+asset)
 			st = st[:i] + "$" + name + st[i+2:]
+			pos = i
 		}
 		out = append(out, st)
 	}
